@@ -140,16 +140,15 @@ func init() {
 	})
 	registerProp(&PropSpec{
 		ID:       "C16",
-		Patterns: []string{"./js", "./json"},
 		Custom:   []string{"partial"},
 		Partial: []string{
 			modPath + "/js.toNullishExpr", modPath + "/js.minifyString", modPath + "/js.(*jsMinifier).optimizeCondExpr",
 			modPath + "/js.(*jsMinifier).minifyStmt", modPath + "/js.(*jsMinifier).minifyExpr",
-			modPath + "/js.(*renamer).renameScope", modPath + "/json.(*Minifier).Minify",
+			modPath + "/js.(*renamer).renameScope", modPath + "/json.(*Minifier).Minify", modPath + "/html.(*Minifier).Minify",
 		},
 		Notes: []string{
 			"version gates as call-site preconditions / site assertions on the real js code: p_es(v) is DEFINED as (*Minifier).minVersion(v) of the running call; the rewrites that INTRODUCE newer syntax - ?? and ?. (toNullishExpr, ES2020), back-tick quoting (minifyString, ES2015), binding-less catch (ES2019), ** from Math.pow (ES2016) - carry `requires/assert p_es(v)` and every call site / program point must establish it from the branch conditions dominating it. Found and fixed F6 (Math.pow => ** had no version guard)",
-			"Keep*: KeepVarNames/with => renameScope makes no call when renaming is off (C02); KeepNumbers => Number is not called (C07 step contract)",
+			"Keep*: KeepVarNames/with => renameScope makes no call when renaming is off (C02); KeepNumbers => Number is not called (C07 step contract); html KeepQuotes: the quote handed to EscapeAttrVal is the current attribute's own original quote or none (site assertion)",
 			"partial contracts: only the registered obligations (the version-gate obligations plus the safety obligations that discharge) are claimed",
 			"not decided: 'and nothing else', html/css/svg/xml Keep* options, semantic guarantees under every option combination, the CLI flag mapping, tokens already present in the input",
 		},
